@@ -51,10 +51,21 @@ let astdiff_case (fs : t list) : t =
   match diff_snapshot from to_ with
   | None -> L [A "result"; A "fuel"]
   | Some w ->
+    (if Sys.getenv_opt "GP_DEBUG" <> None then
+       match file_decls from with
+       | None -> ()
+       | Some (r, xs) ->
+         let es = xedits (the_script xs (file_decls_to to_)) in
+         Printf.eprintf "r=(%s,%s)\n" (string_of_int (int_of_z (fst r))) (string_of_int (int_of_z (snd r)));
+         List.iteri (fun i (x, rg) ->
+           Printf.eprintf " #%d pos=%s end=%s rg=(%s,%s) e=%s\n" i (string_of_int (int_of_z (vpos x))) (string_of_int (int_of_z (vend x)))
+             (string_of_int (int_of_z (fst rg))) (string_of_int (int_of_z (snd rg)))
+             (match List.nth_opt es i with Some Identity -> "I" | Some Modified -> "M" | Some UniqueX -> "X" | Some UniqueY -> "Y" | None -> "-"))
+           (List.combine xs (elem_regions r None xs)));
     let rep = match decl_report from to_ w.w_log with
       | None -> L [A "report"; A "none"]
       | Some (ok, ds) ->
-        L [A "report"; sx_bool ok;
+        L [A "report"; sx_bool ok; A ("c" ^ String.concat "" (List.map (fun b -> if b then "1" else "0") (decl_conditions from to_)));
            L (List.map (fun ((j, att), unclear) -> L [sx_int (int_of_nat j); sx_bool att; sx_bool (unclear = []);
                                                        L (List.map (fun (a, b) -> L [sz a; sz b]) unclear)]) ds)] in
     L [A "result";
